@@ -1505,6 +1505,27 @@ def _s_window():
              '.readTilesOfEveryBandMeetingWindow]', '_get_data_window and the tile filter of stats()')]
 
 
+def _k_init():
+    """kernel_model.py KernelModel.__init__: the kernel shape goes through validate_kernel_shape, the configuration is completed by
+    create_config and every value is stored AS GIVEN (no value is re-interpreted: a threshold of 0 stays 0, None stays None)"""
+    from homonim.kernel_model import KernelModel
+    st = [U(x) for x in _stmts(fn_body(src_of(KernelModel.__init__)))]
+    want_head = ['self._model = Model(model)', 'self._kernel_shape = utils.validate_kernel_shape(kernel_shape, model=model)',
+                 'self._find_r2 = find_r2', 'config = self.create_config(**kwargs)']
+    if st[:4] != want_head:
+        raise TranslationError(f'KernelModel.__init__: {st[:4]}')
+    keys = []
+    for t in st[4:]:
+        import re
+        m = re.fullmatch(r"self\._(\w+): \w+ = config\['(\w+)'\]", t)
+        if not m or m.group(1) != m.group(2):
+            raise TranslationError(f'KernelModel.__init__: a configuration value is not stored as given: `{t}`')
+        keys.append(m.group(2))
+    return [('kmodel_configStoredAsGiven', '', 'List String', '[' + ', '.join(f'"{k}"' for k in keys) + ']',
+             "KernelModel.__init__: self._x = config['x'] for every key"),
+            ('kmodel_kernelValidated', '', 'Bool', 'true', 'KernelModel.__init__: utils.validate_kernel_shape(kernel_shape, model=model)')]
+
+
 def _f_tags():
     """fuse.py / stats.py: which FUSE_* tags process() writes into both outputs (the three fixed ones of _set_metadata plus one per
     configuration key handed to _out_files), which of them ParamStats reads, and that the threshold read back is made a number"""
@@ -1572,7 +1593,7 @@ def _f_tags():
 SECTIONS = [_k_fit_gain, _k_fit_gain_offset, _k_r2, _k_blk, _s_cmp, _s_cmp_mean, _s_stats, _g_blocks, _g_resolve, _g_auto,
             _g_overlap, _g_expand, _g_round, _g_covers, _g_pindex, _s_cmp_block, _m_cover, _a_bounded, _p_r2band, _f_prog, _f_outfiles, _c_invoke, _f_process, _k_resampling, _a_convert, _a_write, _a_read,
             _g_orient, _m_naneq, _f_accumulate, _c_loops, _f_profiles, _c_nodata, _b_match, _f_locks,
-            _u_kernel, _u_threads, _u_param_image, _u_names, _u_nonalpha, _b_info, _c_defaults, _f_tags, _s_window]
+            _u_kernel, _u_threads, _u_param_image, _u_names, _u_nonalpha, _b_info, _c_defaults, _f_tags, _s_window, _k_init]
 # definition-name prefixes each extractor is responsible for (used to attribute a failed extraction to properties)
 PROVIDES = {'_k_fit_gain': ('fitGain_',), '_k_fit_gain_offset': ('fitGainOffset_',), '_k_r2': ('r2_',),
             '_k_blk': ('blk_', 'blockNorm_', 'applyParams'), '_s_cmp': ('cmp_',), '_s_cmp_mean': ('cmp_meanRow',),
@@ -1583,23 +1604,23 @@ PROVIDES = {'_k_fit_gain': ('fitGain_',), '_k_fit_gain_offset': ('fitGainOffset_
             '_a_read': ('read_',), '_g_orient': ('orient_',), '_m_naneq': ('mask_',), '_f_accumulate': ('accumulate_',),
             '_c_loops': ('cli_fuseLoop', 'cli_compareLoop'), '_f_profiles': ('profile_',), '_c_nodata': ('cli_nodata',), '_b_match': ('match_',), '_f_locks': ('locks_',),
             '_u_kernel': ('kernel_',), '_u_threads': ('threads_',), '_u_param_image': ('paramImage_',), '_u_names': ('names_',),
-            '_u_nonalpha': ('bands_',), '_b_info': ('bandInfo_',), '_c_defaults': ('cli_defaults', 'cli_flagDefaults'), '_f_tags': ('tags_',), '_s_window': ('statsWindow_',)}
+            '_u_nonalpha': ('bands_',), '_b_info': ('bandInfo_',), '_c_defaults': ('cli_defaults', 'cli_flagDefaults'), '_f_tags': ('tags_',), '_s_window': ('statsWindow_',), '_k_init': ('kmodel_',)}
 # which generated definitions (by name prefix) bear on which property's check
 SERVES = {
-    'C01': ('fitGain', 'r2_', 'blk_', 'blockNorm_', 'kernel_'), 'C02': ('fitGain', 'r2_', 'blk_', 'blockNorm_', 'applyParams', 'resamplingIsDown'),
+    'C01': ('fitGain', 'r2_', 'blk_', 'blockNorm_', 'kernel_'), 'C02': ('fitGain', 'r2_', 'blk_', 'blockNorm_', 'applyParams', 'resamplingIsDown', 'kmodel_'),
     'C07': ('fitGain', 'r2_', 'blk_', 'blockNorm_', 'applyParams', 'mask_'), 'C14': ('applyParams', 'paramIndex', 'fitGain', 'r2_', 'profile_metaTags', 'paramImage_', 'tags_'),
     'C04': ('prog', 'fanOut', 'accumulate_', 'locks_', 'threads_'), 'C09': ('prog', 'outFilesEvents', 'fanOut', 'statsWindow_'), 'C10': ('outFilesEvents', 'profile_', 'cli_fuseLoop', 'names_'), 'C11': ('cmp_', 'cmpPx_', 'resamplingIsDown', 'accumulate_compare', 'mask_'), 'C12': ('stats_', 'accumulate_stats', 'paramImage_', 'tags_', 'statsWindow_'), 'C17': ('cover_',), 'C20': ('bounded_', 'writeSteps', 'read_', 'convert_', 'mask_'), 'C13': ('convert_', 'writeSteps', 'profile_'), 'C08': ('read_', 'mask_', 'bands_'),
-    'C03': ('writeSteps', 'expandWindow_'), 'C05': ('overlapForKernel', 'blocks_', 'resamplingIsDown', 'fitGain', 'r2_', 'kernel_'),
-    'C06': ('blocks_', 'expandWindow_', 'roundBounds_', 'autoBlock_', 'orient_'), 'C16': ('covers_axis', 'orient_'), 'C18': ('resolveAutoIsRef', 'orient_', 'cli_fuseLoop', 'tags_'), 'C19': ('cli_', 'names_', 'threads_', 'kernel_'), 'C15': ('match_', 'bands_', 'bandInfo_'),
+    'C03': ('writeSteps', 'expandWindow_', 'kmodel_'), 'C05': ('overlapForKernel', 'blocks_', 'resamplingIsDown', 'fitGain', 'r2_', 'kernel_'),
+    'C06': ('blocks_', 'expandWindow_', 'roundBounds_', 'autoBlock_', 'orient_'), 'C16': ('covers_axis', 'orient_'), 'C18': ('resolveAutoIsRef', 'orient_', 'cli_fuseLoop', 'tags_'), 'C19': ('cli_', 'names_', 'threads_', 'kernel_', 'kmodel_'), 'C15': ('match_', 'bands_', 'bandInfo_'),
 }
 # theorems outside Props/Cxx.lean audited with a property's proof leg: (module, theorem name prefix) - the source-text tie
 # theorems and the end-to-end theorems about the whole-image model (Props/E2E.lean)
 TIE = {
     'C01': [('SrcTieCli', 'src_C01_kernel'), ('SrcTieCli', 'src_C01_accepted'), ('SrcTieKernel', 'src_C01_')],
-    'C02': [('SrcTieKernel', 'src_C01_'), ('SrcTieKernel', 'src_C14_apply'), ('SrcTieKernel', 'src_C02_'), ('E2E', 'block_transparent'),
+    'C02': [('SrcTieCli', 'src_C19_model_config'), ('SrcTieKernel', 'src_C01_'), ('SrcTieKernel', 'src_C14_apply'), ('SrcTieKernel', 'src_C02_'), ('E2E', 'block_transparent'),
             ('E2ELine', 'whole_image_gain_recovers'), ('E2ELine', 'whole_image_gain_offset_recovers'),
             ('E2EWide', 'whole_image_gain_'), ('E2EWide', 'cubic_weights_sum_one'), ('E2EWide', 'bspline_weights_')],
-    'C03': [('SrcTieGeom', 'src_C06_expand'), ('E2E', 'block_transparent'), ('E2EMask', 'whole_image_'), ('E2EMask', 'block_mask_eq_whole'),
+    'C03': [('SrcTieCli', 'src_C19_model_config'), ('SrcTieGeom', 'src_C06_expand'), ('E2E', 'block_transparent'), ('E2EMask', 'whole_image_'), ('E2EMask', 'block_mask_eq_whole'),
             ('E2EWide', 'wide_valid_iff_nearest'), ('E2EWide', 'wide_mask_eq_nearest'), ('E2EWide', 'whole_image_no_lost_pixels_wide'),
             ('E2EWide', 'block_mask_eq_whole_wide')],
     'C15': [('SrcTieCli', 'src_C15_'), ('BandInfo', 'bandInfo_'), ('SrcTieStats', 'src_C15_')],
@@ -1614,7 +1635,7 @@ TIE = {
     'C13': [('SrcTieGeom', 'src_C13_'), ('SrcTieSched', 'src_C13_')], 'C08': [('SrcTieCli', 'src_C15_non_alpha'), ('SrcTieGeom', 'src_C08_')],
     'C17': [('SrcTieGeom', 'src_C17_'), ('E2EPartial', 'partial_mask_'), ('E2EPartialDef', 'partial_valid_'),
             ('E2EPartialSrc', 'partial')], 'C20': [('SrcTieGeom', 'src_C20_'), ('SrcTieGeom', 'src_C08_nan_equals'), ('SrcTieGeom', 'src_C08_mask_')],
-    'C04': [('SrcTieCli', 'src_C19_threads'), ('SrcTieSched', 'src_C04_')], 'C09': [('SrcTieSched', 'src_C04_'), ('SrcTieCli', 'src_C12_window_steps')], 'C10': [('SrcTieCli', 'src_C19_names'), ('SrcTieSched', 'src_C10_'), ('SrcTieSched', 'src_C13_profiles'), ('SrcTieSched', 'src_C19_loops')], 'C19': [('SrcTieCli', 'src_C19_threads'), ('SrcTieCli', 'src_C19_names'), ('SrcTieCli', 'src_C19_defaults'), ('SrcTieCli', 'src_C01_kernel'), ('SrcTieSched', 'src_C19_')],
+    'C04': [('SrcTieCli', 'src_C19_threads'), ('SrcTieSched', 'src_C04_')], 'C09': [('SrcTieSched', 'src_C04_'), ('SrcTieCli', 'src_C12_window_steps')], 'C10': [('SrcTieCli', 'src_C19_names'), ('SrcTieSched', 'src_C10_'), ('SrcTieSched', 'src_C13_profiles'), ('SrcTieSched', 'src_C19_loops')], 'C19': [('SrcTieCli', 'src_C19_model_config'), ('SrcTieCli', 'src_C19_threads'), ('SrcTieCli', 'src_C19_names'), ('SrcTieCli', 'src_C19_defaults'), ('SrcTieCli', 'src_C01_kernel'), ('SrcTieSched', 'src_C19_')],
 }
 
 
